@@ -111,9 +111,9 @@ class Elasticity(Scenario):
         st = state if state is not None else ic_before
         scanned = names if self.which == "variable" else m.get_parameter_names()
         fluxes = E.flux_names(E.Decl(m))
-        ctx.true("one column per scanned quantity, one row per flux", list(df.columns) == scanned and list(df.index) == fluxes,
+        ctx.true("one column per scanned quantity, one row per flux", set(df.columns) == set(scanned) and set(df.index) == set(fluxes),
                  info=f"{list(df.columns)} / {list(df.index)}")
-        if list(df.columns) != scanned or list(df.index) != fluxes:
+        if set(df.columns) != set(scanned) or set(df.index) != set(fluxes):
             return
 
         def flux_at(st_, par_override):
